@@ -117,7 +117,8 @@ static Payload payload(int s, int v) {
     p.d.assign(3 + 2 * s + 7 * v, 1.5 * s + v);
     p.big.assign(v ? 1001 : 2, 0.25f * s + v);
     for (size_t i = 0; i < p.big.size(); ++i) p.big[i] += float(i % 7);
-    p.names.assign(1 + (s % 3) + 106 * v * (s == 2), "W" + std::to_string(s) + (v ? "B" : "A"));
+    // step 2 version B: 109 strings of 10 characters (a C010 array of more than one 105-string block, 6 strings per line)
+    p.names.assign(1 + (s % 3) + 106 * v * (s == 2), ((v && s == 2) ? std::string("LONGNAME") : std::string("W")) + std::to_string(s) + (v ? "B" : "A"));
     // an array whose length is an exact multiple of the sub-block size (two full blocks): a torn second block has the
     // same head/tail words as the first one
     p.blocks.assign((v && s == 1) ? 2000 : 3, 7 * s + v + 1);
